@@ -257,7 +257,7 @@ PROPS['C01'] = dict(
     level_text='proved (Verus, every length): the lossy UTF-8 loop of Encoding::decode slices in range, calls the unsafe from_utf8_unchecked only on a prefix std validated (its safety condition is a Verus precondition) and terminates; interpolate_vertices never indexes outside its slices given path.len() <= lengths.len(), which calculate_length establishes on every exit for paths of every length (unit len, also: its own `path[end_idx]` / `path[prev_idx]` in range); the whole Bezier chain calculate_path -> calculate_subpath -> approximate_bezier -> extend_exact / approximate_bspline -> bezier_approximate / bezier_subdivide never slices or indexes outside the vertex list or the shared scratch buffers, for every number of control points and every earlier use of the buffers (data-structure invariant: the four scratch vectors have equal length; approximate_bspline requires capacity >= points.len(), which every caller must prove), `unreachable!()` in calculate_path is unreachable. proved (Kani, full domain): numeric limits (parse_with_limits for f64 / f32 / i32: accepted values lie within +-limit and are never NaN, no overflow panic), BOM table, code-unit pairing, the two unsafe NonZeroU32::new_unchecked guards (HitSampleInfo::new, SamplePoint::apply), SliderEventsIter::new. Bounded stand-ins: path-string conversion incl. the raw-pointer split buffer being empty on every exit, index safety of interpolate_vertices / idx_of_dist / calculate_length (path.len() <= lengths.len() invariant), line parsers on templates never panic for any numeric value',
     level_note='the universally quantified claim over byte strings is whole-program totality and is NOT decided; nor are termination of the adaptive Bezier subdivision and of the tick loop, the 1000-point arc cap, re-encoding, the tracing feature set',
     verus=[dict(unit='c19', tier='quick'), dict(unit='len', tier='quick'), dict(unit='bez', tier='quick'), dict(unit='enc', tier='quick')], kani=['support.kc', 'parse_number.kc', 'encoding.kc', 'u16_iter.kc', 'hit_samples.kc', 'c15_sample.kc', 'curve.kc', 'c20.kc', 'ho_lines.kc', 'c11_sections.kc'],
-    only_prefix=['pn_', 'enc_from_bom', 'enc_decode', 'u16_', 'hs_hit_sample_info_new', 'c15_sample_point_apply', 'c16_calculate_length_2', 'c19_interpolate', 'c19_idx', 'c20_new_clears', 'ho_path_one', 'ho_line_5', 'c11_event_video_non_ascii', 'c11_difficulty_slider_multiplier', 'c11_color_five'],
+    only_prefix=['pn_', 'enc_from_bom', 'enc_decode', 'u16_', 'hs_hit_sample_info_new', 'c15_sample_point_apply', 'c16_calculate_length_2', 'c19_interpolate', 'c19_idx', 'c20_new_clears', 'ho_path_one', 'ho_path_trailing', 'ho_line_5', 'c11_event_video_non_ascii', 'c11_difficulty_slider_multiplier', 'c11_color_five'],
     kani_functions=['src/util/parse_number.rs :: impl ParseNumber for f64 / f32 / i32', 'src/reader/encoding.rs :: Encoding::from_bom', 'src/reader/u16_iter.rs :: iterators',
                     'src/section/hit_objects/hit_samples.rs :: HitSampleInfo::new (unsafe)', 'src/section/timing_points/control_points/sample.rs :: SamplePoint::apply (unsafe)',
                     'src/section/hit_objects/slider/curve.rs :: calculate_length / interpolate_vertices / idx_of_dist', 'src/section/hit_objects/slider/event.rs :: SliderEventsIter::new',
